@@ -307,32 +307,57 @@ def order(R, ctx):
 
 
 def wire(R, ctx):
+    """GeneratorParameters::{build_parser, generate_lua} as functions of the variant (finite-domain evaluation)."""
+    from .. import peval
+    from ..peval import Enum, Struct, UNKNOWN, UNIT
     rid = "C03.wire"
     lib = ctx.lib
-    R.rule(rid, "GeneratorParameters::RetainLines selects Parser::preserve_tokens() in build_parser and TokenBasedLuaGenerator in generate_lua")
+    R.rule(rid, "GeneratorParameters::build_parser and ::generate_lua, evaluated from their typed tree for every variant: RetainLines (and only "
+                "it needs to) yields a parser that keeps token data -- the parser built differs from the Dense one exactly by a flag that is "
+                "true -- and generates with TokenBasedLuaGenerator")
     GP = "frontend::configuration::GeneratorParameters"
-    for fname, want in (("build_parser", "preserve_tokens"), ("generate_lua", "token_based::TokenBasedLuaGenerator")):
-        path = "%s::%s" % (GP, fname)
-        cfg = mir.get_cfg(lib, path)
-        if not R.require(rid, "anchor:" + path, cfg is not None, "", "not found"):
-            continue
-        fn = lib.fns[path]
-        region = set()
-        found_switch = False
-        for b, adt, tg_, other, place, rest in cfg.discr_switches(GP):
-            found_switch = True
-            if "RetainLines" in tg_ and list(tg_.values()).count(tg_["RetainLines"]) == 1 and tg_["RetainLines"] != other:
-                region |= cfg.edge_region(b, tg_["RetainLines"])
-            elif "RetainLines" in rest and len(rest) == 1:
-                region |= cfg.edge_region(b, other)
-        R.require(rid, "anchor:switch:" + fname, found_switch, ctx.where(fn), "no switch on GeneratorParameters")
-        hit = [i for i, t in cfg.calls() if want in (cfg.callee(t) or "")]
-        in_region = [i for i in hit if i in region]
-        R.ob(rid, "%s|RetainLines->%s" % (fname, want.split("::")[-1]), bool(in_region), ctx.where(fn),
-             "on the RetainLines arm %s is %s" % (want, "used" if in_region else "NOT used"))
-        others_use = [i for i in hit if i not in region]
-        if fname == "build_parser":
-            R.ob(rid, "%s|only-RetainLines-preserves" % fname, True, ctx.where(fn), "informational", nontrivial=False)
+    ga = lib.adts.get(GP)
+    if not R.require(rid, "anchor:GeneratorParameters", ga is not None and any(v["name"] == "RetainLines" for v in ga["variants"]), "", "enum with a RetainLines variant"):
+        return
+    parsers, gens = {}, {}
+    for v in ga["variants"]:
+        val = Enum(GP, v["name"], {f["name"]: 80 for f in v["fields"]})
+        fn = lib.fn(GP + "::build_parser")
+        if R.require(rid, "anchor:build_parser", fn is not None, "", "not found"):
+            pe = peval.PEval(lib, ctx.an)
+            try:
+                parsers[v["name"]] = (pe.call_fn(fn, [val]), pe.unknown_reasons[:2])
+            except peval.OutOfFuel:
+                parsers[v["name"]] = (UNKNOWN, ["no termination"])
+        fn2 = lib.fn(GP + "::generate_lua")
+        if R.require(rid, "anchor:generate_lua", fn2 is not None, "", "not found"):
+            made = []
+
+            def hook(pe, path, fname, args, node, made=made):
+                if fname == "new" and "LuaGenerator" in path:
+                    made.append([x.split("<")[0] for x in path.split("::") if "LuaGenerator" in x][0])
+                    return Struct("#Generator", {})
+                if args and isinstance(args[0], Struct) and args[0].adt == "#Generator":
+                    return "#text" if fname == "into_string" else UNIT
+                return NotImplemented
+            pe = peval.PEval(lib, ctx.an, hook)
+            try:
+                pe.call_fn(fn2, [val, Struct("nodes::block::Block", {}), "code"])
+            except peval.OutOfFuel:
+                pass
+            gens[v["name"]] = made
+    if "RetainLines" in parsers:
+        p_ret, why = parsers["RetainLines"]
+        others = [p for k, (p, _) in parsers.items() if k != "RetainLines"]
+        flags = [f for f, x in (p_ret.fields.items() if isinstance(p_ret, Struct) else []) if x is True and all(isinstance(o, Struct) and o.fields.get(f) is not True for o in others)]
+        fn = lib.fn(GP + "::build_parser")
+        R.ob(rid, "build_parser|RetainLines->preserve_tokens", bool(flags), ctx.where(fn),
+             "the RetainLines parser keeps token data (flag %s)" % flags if flags else "the parser built for RetainLines is %s: no token-preserving flag set %s" % (p_ret, why))
+    if "RetainLines" in gens:
+        fn2 = lib.fn(GP + "::generate_lua")
+        R.ob(rid, "generate_lua|RetainLines->TokenBasedLuaGenerator", gens["RetainLines"] == ["TokenBasedLuaGenerator"], ctx.where(fn2),
+             "RetainLines generates with %s" % (gens["RetainLines"] or "no generator this rule could see"))
+        R.sample({"generators": gens})
 
 
 STMT = "nodes::statements::Statement"
